@@ -1,6 +1,8 @@
 import CnlDriver.CS
 import CnlModel.Layered
 import CnlSpec.Overflow
+import CnlModel.OverflowFloat
+import CnlDriver.FloatIO
 /-! `C06` / `C07` tables: tagged arithmetic and conversion on built-in operands. -/
 namespace Cnl.Drv
 open Cnl Cnl.Overflow
@@ -58,6 +60,23 @@ def c06Eval (toks : List String) : Option C06Case :=
     let tag ← parseOvTag tag; let S ← parseIntTy st; let D ← parseIntTy dt; let v ← v.toInt?
     some { model := checkedConvert tag D (S, v), want := some (c06Want tag D v), cls := "",
            branch := s!"cvt/{tag.toString}" ++ (if D.inRange v then "" else "/ovf") }
+  | ["cvtf", _path, tag, fm, dt, x] => do
+    let tag ← parseOvTag tag; let f ← FloatIO.parseFmt fm; let D ← parseIntTy dt; let x ← Fmt.ofHex? f x
+    -- exact result: the value truncated toward zero
+    -- overflow iff the real value itself lies outside the destination's range; otherwise truncation
+    let want : Option String := match x.toRat? with
+      | some q =>
+        let t : Int := if q < 0 then -((-q).floor) else q.floor
+        if q > (D.max : Rat) then some (c06Want tag D (D.max + 1))
+        else if q < (D.lowest : Rat) then some (c06Want tag D (D.lowest - 1))
+        else some (c06Want tag D t)
+      | none => none
+    -- the limit itself rounds up when converted to the source format: values in [max+1, float(max)] are not flagged
+    let cls := match x.toRat? with
+      | some q =>
+                  if (q > (D.max : Rat) && !fCmp .gt x (f.ofInt D.max)) || (q < (D.lowest : Rat) && !fCmp .lt x (f.ofInt D.lowest)) then "C06.float_at_limit_not_flagged" else ""
+      | none => ""
+    some { model := checkedConvertFloat tag f D x, want := want, cls := cls, branch := s!"cvtf/{tag.toString}/{fm}" }
   | _ => none
 
 def isWrapped (toks : List String) : Bool := toks.head? == some "wbin"
